@@ -10,16 +10,27 @@ package storage
 // they were recomputed. separate(p, left): no producer entry of p is the same object as the entry of left under any key.
 //@ spec separate(p *Point, left *Point) bool = forall k1 string, k2 string :: has(p.Pillars, k1) && has(left.Pillars, k2) ==> p.Pillars[k1] != left.Pillars[k2]
 
+// separateW(p, left): nor do they share a Weight object (Merge adds into the Weight in place, compoundPoints divides it in place).
+//@ spec separateW(p *Point, left *Point) bool = forall k1 string, k2 string :: has(p.Pillars, k1) && has(left.Pillars, k2) && p.Pillars[k1] != nil && left.Pillars[k2] != nil ==> p.Pillars[k1].Weight != left.Pillars[k2].Weight
+
+// Copy is a deep copy: a new detail with a new Weight of the same value.
 //@ func ProducerDetail.Copy(detail)
+//@   requires detail.Weight != nil
 //@   ensures result != nil && fresh(result) && result.ExpectedNum == detail.ExpectedNum && result.FactualNum == detail.FactualNum
+//@   ensures[deep] result.Weight != nil && fresh(result.Weight) && val(result.Weight) == val(detail.Weight)
 //@   modifies nothing
 
 //@ func Point.LeftAppend(p, left)
 //@   requires p != nil && left != nil && p != left && p.Pillars != left.Pillars && p.Pillars != nil
 //@   requires separate(p, left)
-//@   requires forall k string :: has(left.Pillars, k) ==> left.Pillars[k] != nil && allocated(left.Pillars[k])
+//@   requires forall k string :: has(left.Pillars, k) ==> left.Pillars[k] != nil && allocated(left.Pillars[k]) && left.Pillars[k].Weight != nil && allocated(left.Pillars[k].Weight)
+//@   requires forall k string :: has(p.Pillars, k) ==> p.Pillars[k] != nil && p.Pillars[k].Weight != nil
+//@   requires separateW(p, left)
 //@   ensures[no-shared-details] separate(p, left)
+//@   ensures[no-shared-weights] separateW(p, left)
 //@   loop 1
 //@     invariant separate(p, left)
+//@     invariant separateW(p, left)
+//@     invariant forall k string :: has(p.Pillars, k) ==> p.Pillars[k] != nil && p.Pillars[k].Weight != nil
 //@     invariant p.Pillars == old(p.Pillars) && left.Pillars == old(left.Pillars)
-//@     invariant forall k string :: has(left.Pillars, k) ==> left.Pillars[k] != nil && allocated(left.Pillars[k])
+//@     invariant forall k string :: has(left.Pillars, k) ==> left.Pillars[k] != nil && allocated(left.Pillars[k]) && left.Pillars[k].Weight != nil && allocated(left.Pillars[k].Weight)
